@@ -473,6 +473,19 @@ def as_completed(
     ignore_failures: bool = False,
 ) -> Iterator[Any]:
   """Run tasks within the worker pool."""
+  try:
+    yield from _as_completed(worker_pool, task_iterator, ignore_failures)
+  finally:
+    # Also release the workers when a task error or a timeout is raised.
+    worker_pool.release_all()
+
+
+def _as_completed(
+    worker_pool: courier_worker.WorkerPool,
+    task_iterator: Iterable[courier_worker.Task | types.Resolvable],
+    ignore_failures: bool = False,
+) -> Iterator[Any]:
+  """Run tasks within the worker pool, releases the workers on success."""
   task_iterator = iter(task_iterator)
   running_tasks: list[courier_worker.Task] = []
   tasks: list[courier_worker.Task] = []
